@@ -15,7 +15,7 @@ use super::isa;
 use super::super::{Cpu, StateType};
 use crate::bus::Bus;
 
-pub const N_INIT: usize = 10;
+pub const N_INIT: usize = 14;
 pub const N_CODE: usize = 10;
 pub const N_WR: usize = 8;
 pub const N_RD: usize = 20;
@@ -206,5 +206,12 @@ pub fn bus_send_io_port_value(_b: &mut Bus, port: u8, value: u8) -> anyhow::Resu
     s.ioport_msgs += 1;
     s.last_port = port;
     s.last_port_value = value;
+    Ok(())
+}
+
+/// TRAPA #0 (MES system call) is specified separately (C14); in the instruction harnesses it is an
+/// abstract call that is counted as a message so that reaching it breaks the `no_message` clause.
+pub fn mes_call(_c: &mut Cpu) -> anyhow::Result<()> {
+    seam().msgs += 1;
     Ok(())
 }
